@@ -78,8 +78,10 @@ namespace micm
         {
           // Compute alpha accounting for the last alpha value
           // This is necessary to avoid the need to re-factor the jacobian for non-inline LU algorithms
+          // (last_alpha holds the total shift already on the diagonal, not the last increment)
+          const double total_alpha = alpha;
           alpha -= last_alpha;
-          last_alpha = alpha;
+          last_alpha = total_alpha;
         }
 
         // Form and factor the rosenbrock ode jacobian
